@@ -50,6 +50,13 @@ CHECKS = {
  "C12": dict(cat="fault_enumeration", tech="generated outage scripts (cut point x failing attempts x failure mode x repetition) against a scripted fake server, exact reconnect-attempt accounting for the real client library",
      text="For all four stream kinds the connection is cut at generated points; each outage has a scripted number of failing reconnect attempts (dropped connection or retryable refusal) or a non-retryable answer. The fake server counts registrations: k+1 on recovery with an identical registration frame and working traffic afterwards, exactly max_attempts then too-many-retries, immediate report of an unrecoverable answer; more outages than max_attempts distinguishes per-outage from lifetime budgets.",
      note="The server side is scripted (the real server's part in recovery is C08/C10); outages are connection closes, not silent packet loss.", ref="§5 C12"),
+
+ "C11": dict(cat="exploration", tech="frame-script property-based testing against a fresh real server with raw wire peers (service probes per accepted stream, post-hoc health probes per topic, process-wide panic hook) plus stateful PBT of the real req/rep router fed with non-message and near-limit frames",
+     text="Generated scripts of stream opens (all eight first-frame kinds, valid/invalid names, topics already used in the other pattern) and mid-stream frames of any kind incl. requests that only fit the wire limit before the routing tag is added; every stream must end up served in its role (verified by an exchange through that very stream) or explicitly refused with an error frame (which the client library reports from open()); no server task may panic and every touched topic must still serve fresh well-behaved peers.",
+     note="Authenticated peer, well-formed frames only. 'Ok' precedes adoption by the router, so the harness settles bindings with probe exchanges before relying on their order.", ref="§5 C11"),
+ "C17": dict(cat="fault_enumeration", tech="generated stall + registration-queue overflow on one topic of a fresh real server (non-reading subscriber, flooding publishers, b registrations before and n after the stall, n around and above the queue capacity), cross-topic probe with raw peers and the client library",
+     text="After topic A is provably stalled (its publishers are back-pressured) and more registrations than the router's queue holds are made on it, a publisher/subscriber pair on topic B (raw and through the client library) must still register and exchange a message; a control exchange on B before the stall must have succeeded in the same case.",
+     note="One stall mechanism; the violating behaviour is a dead-lock, so the 12 s deadline is not a race.", ref="§5 C17"),
 }
 PENDING = {}
 ALL = ["C%02d" % i for i in range(1, 18)]
